@@ -506,7 +506,7 @@ def corr_substitute(ctx):
     from hiten.algorithms.polynomial.coordinates import _substitute_coordinates
     from hiten.algorithms.hamiltonian import transforms as TR
     rng = ctx.rng
-    n = 90 if ctx.thorough() else 30
+    n = 200 if ctx.thorough() else 30
     lines, checks = [], []
     name = "correspondence:substitute-linear"
     for c in range(n):
@@ -656,10 +656,10 @@ def _history_cases(ctx, g):
     # the live registry: every single target from a fresh pipeline, and random histories
     for t in forms:
         cases.append((forms, live, [t]))
-    for _ in range(60 if ctx.thorough() else 20):
+    for _ in range(150 if ctx.thorough() else 20):
         cases.append((forms, live, [rng.choice(forms) for _ in range(rng.randint(2, 5))]))
     # random registries (other graphs, odd context lists)
-    for _ in range(120 if ctx.thorough() else 40):
+    for _ in range(300 if ctx.thorough() else 40):
         n = rng.randint(3, 7)
         fs = ["physical"] + ["f%d" % i for i in range(1, n)]
         if rng.random() < 0.15:
@@ -674,6 +674,64 @@ def _history_cases(ctx, g):
             edges.append((s, d, c))
         cases.append((fs, edges, [rng.choice(fs) for _ in range(rng.randint(1, 4))]))
     return cases
+
+
+def live_path_search(ctx, g, point):
+    """failing-input search for the path-search clause, independent of the Lean model: on the live registry the path
+    `_follow_conversion_path` executes must be a chain of registered edges from source to target of minimal length, and
+    it may give up only when the target is unreachable (plain Python BFS as the oracle)."""
+    from hiten.algorithms.hamiltonian.pipeline import HamiltonianPipeline
+    forms = list(g["forms"])
+    live = [(s, d, list(c or [])) for (s, d), (_, c, _) in g["items"]]
+    usable = {(s, d) for s, d, c in live if (not c or "point" in c)}
+
+    def dist(s):
+        dd = {s: 0}
+        frontier = [s]
+        while frontier:
+            nxt = []
+            for a in frontier:
+                for (x, y) in usable:
+                    if x == a and y not in dd:
+                        dd[y] = dd[a] + 1
+                        nxt.append(y)
+            frontier = nxt
+        return dd
+
+    log = []
+    with _StubRegistry(live, log):
+        for s in forms:
+            dd = dist(s)
+            for t in forms:
+                if s == t:
+                    continue
+                del log[:]
+                p2 = HamiltonianPipeline(point, 2)
+                p2._hamiltonian_cache[s] = _FakeHam(s)
+                try:
+                    p2._follow_conversion_path(s, t)
+                    got = list(log)
+                except NotImplementedError:
+                    got = None
+                except Exception as ex:
+                    got = repr(ex)
+                ctx.case(("livepath", s, t), nontrivial=got is not None and len(got) >= 2, kind="live-path")
+                bad = None
+                if got is None:
+                    if t in dd:
+                        bad = "gives up (NotImplementedError) although %s is reachable in %d steps" % (t, dd[t])
+                elif isinstance(got, str):
+                    bad = "raises " + got
+                else:
+                    chain = all(e in usable for e in got) and got[0][0] == s and got[-1][1] == t and all(a[1] == b[0] for a, b in zip(got, got[1:]))
+                    if not chain:
+                        bad = "executes %r, not a chain of registered conversions from %s to %s" % (got, s, t)
+                    elif len(got) != dd.get(t):
+                        bad = "executes %d conversions %r, the shortest path has %r" % (len(got), got, dd.get(t))
+                if bad:
+                    _viol(ctx, "path-search:%s->%s" % (s, t), "_follow_conversion_path(%r, %r) %s" % (s, t, bad),
+                          {"start": s, "target": t, "executed": got, "registry": [[a, b, c] for a, b, c in live]})
+                    return
 
 
 def corr_pipeline(ctx, g):
@@ -737,6 +795,7 @@ def corr_pipeline(ctx, g):
             ctx.case(("hist", tuple(forms), tuple((s, d, tuple(c)) for s, d, c in edges), tuple(hist)), nontrivial=multi,
                      kind="history:live" if "real_modal" in forms else "history:random-registry",
                      sample={"edges": edges, "history": hist} if len(ctx.samples) < 4 else None)
+    live_path_search(ctx, g, point)
     out = [l for l in ctx.lean_run("Drivers/C18.lean", "\n".join(lines) + "\n") if l.strip()]
     if len(out) != len(expect):
         ctx.broken.append((name, "driver returned %d lines for %d requests" % (len(out), len(expect))))
@@ -857,7 +916,7 @@ def run_edges(ctx, g, plan=None):
     if plan is not None:
         pass
     elif ctx.thorough():
-        plan = [(s, i, d) for (s, i) in POINT_SETS_THOROUGH for d in (2, 3, 4, 5, 6)] + [("earth-moon", i, 8) for i in (1, 2, 4)] + [("earth-moon", 1, 7)]
+        plan = [(s, i, d) for (s, i) in POINT_SETS_THOROUGH for d in (2, 3, 4, 5, 6)] + [("earth-moon", i, 8) for i in (1, 2, 3, 4)] + [("earth-moon", 1, 7), ("earth-moon", 5, 7), ("sun-earth", 1, 8)]
     else:
         plan = [("earth-moon", 1, 4), ("earth-moon", 2, 5), ("earth-moon", 1, 6), ("earth-moon", 3, 4), ("earth-moon", 4, 4),
                 ("earth-moon", 5, 3), ("sun-earth", 2, 4), ("sun-earth", 1, 2)]
@@ -903,7 +962,7 @@ def run_edges(ctx, g, plan=None):
                     y = np.asarray(cmap(x), dtype=np.complex128)
                     new = poly_eval(ham.poly_H, x)
                     old = poly_eval(src.poly_H, y)
-                    scale = _abs_scale(src.poly_H, y) + 1e-300
+                    scale = max(_abs_scale(src.poly_H, y), _abs_scale(ham.poly_H, x)) + 1e-300
                     ratio = abs(new - old) / scale
                     worst_ag = max(worst_ag, ratio)
                     if not ratio <= 1e-9:
@@ -918,26 +977,33 @@ def run_edges(ctx, g, plan=None):
                 except Exception as ex:
                     continue   # reported when that edge is visited
                 tol = max(float((dflt or {}).get("tol", 1e-12)), float((items[keys.index((d, s))][1][2] or {}).get("tol", 1e-12)))
-                scale = poly_maxabs(src.poly_H)
+                scale = max(poly_maxabs(src.poly_H), poly_maxabs(ham.poly_H))
                 err = poly_diff(back.poly_H, src.poly_H)
-                # cleaned-away coefficients (<= tol each) are spread by the reverse substitution; growth <= (row sum)^deg
-                growth = _growth(ops[ei], point, deg)
-                allowed = 1e3 * (tol * growth + 1e-15 * scale * growth)
+                # what the forward step loses (<= tol per cleaned coefficient, ~50 eps relative to the largest intermediate
+                # coefficient by rounding) is spread by the reverse substitution: growth <= (row sum)^deg x #terms
+                growth = _growth(ops[keys.index((d, s))], point, deg)
+                allowed = 1e3 * (tol + 50 * 2.3e-16 * scale) * growth
                 worst_rt = max(worst_rt, err / allowed)
                 if not err <= allowed:
                     kbad = _worst_coeff(back.poly_H, src.poly_H)
-                    _viol(ctx, "round-trip:" + ekey, "%s -> %s -> %s changes a coefficient by %g (allowed %g = 1e3*(tol*growth + eps*scale*growth))" % (s, d, s, err, allowed),
+                    _viol(ctx, "round-trip:" + ekey, "%s -> %s -> %s changes a coefficient by %g (allowed %g = 1e3*(tol + 50 eps*scale)*growth)" % (s, d, s, err, allowed),
                                   dict(where, edge=[s, d], max_coefficient_change=err, allowed=allowed, tol=tol, growth=growth, worst=kbad))
     ctx.extra["round_trip_worst_over_allowed"] = worst_rt
     ctx.extra["poly_vs_coords_worst_ratio"] = worst_ag
 
 
 def _growth(op, point, deg):
-    if op in ("lin C", "lin Cinv"):
-        C, Cinv = point.normal_form_transform
-        r = max(float(np.abs(C).sum(axis=1).max()), float(np.abs(Cinv).sum(axis=1).max()))
-    else:
+    """how much a coefficient perturbation can grow under the substitution `op`: (max row sum)^deg x #terms"""
+    C, Cinv = point.normal_form_transform
+    if op == "lin C":
+        r = float(np.abs(C).sum(axis=1).max())
+    elif op == "lin Cinv":
+        r = float(np.abs(Cinv).sum(axis=1).max())
+    elif op.startswith("lin M"):
         r = math.sqrt(2.0)
+    else:
+        r = max(float(np.abs(C).sum(axis=1).max()), float(np.abs(Cinv).sum(axis=1).max()), math.sqrt(2.0))
+    r = max(r, 1.0)
     return float(r) ** deg * 500.0   # 500 ~ number of terms that can feed one coefficient
 
 
@@ -997,7 +1063,7 @@ def random_polys(ctx):
                     x = _rand_point(ctx.rng, True, 0.6)
                     y = np.asarray(cmap(x), dtype=np.complex128)
                     new, old = poly_eval(Q, x), poly_eval(P, y)
-                    ratio = abs(new - old) / (_abs_scale(P, y) + 1e-300)
+                    ratio = abs(new - old) / (max(_abs_scale(P, y), _abs_scale(Q, x)) + 1e-300)
                     worst = max(worst, ratio)
                     if not ratio <= 1e-9:
                         _viol(ctx, "poly-vs-coords:" + name, "%s(p)(x) differs from p(coordinate change of x) by %g relative to the term-wise scale" % (name, ratio),
@@ -1006,8 +1072,11 @@ def random_polys(ctx):
                         return
                 R = finv(Q)
                 err = poly_diff(R, P)
-                growth = _growth("lin C" if "modal" in name else "lin M12", point, deg)
-                allowed = 1e3 * (1e-14 * growth + 1e-15 * growth)
+                back_op = {"_substitute_complex": "lin M12", "_substitute_real": "lin M12", "_polylocal2realmodal": "lin C",
+                           "_polyrealmodal2local": "lin Cinv"}[iname]
+                growth = _growth(back_op, point, deg)
+                allowed = 1e3 * (1e-14 + 50 * 2.3e-16 * max(poly_maxabs(P), poly_maxabs(Q))) * growth
+                ctx.extra["random_poly_round_trip_worst_over_allowed"] = max(ctx.extra.get("random_poly_round_trip_worst_over_allowed", 0.0), err / allowed)
                 if not err <= allowed:
                     _viol(ctx, "round-trip:" + name, "%s then %s changes a coefficient of a random polynomial by %g (allowed %g)" % (name, iname, err, allowed),
                                   {"function": name, "inverse": iname, "degree": deg, "system": sysname, "point": "L%d" % idx,
